@@ -645,6 +645,10 @@ class PteraTransformer(NodeTransformer):
             node,
         )
 
+    def visit_ClassDef(self, node):
+        # A class body is a scope of its own, like a nested function
+        return node
+
     def visit_For(self, node):
         new_body = self.generate_interactions(node.target)
         new_body.extend(self.visit_body(node.body))
